@@ -99,6 +99,7 @@ func checkC05(c *Ctx) {
 	c.Rule("C05.R2.coverage", "each serializer reads and writes every declared property, member, item and additional value", 27)
 	checkEmitRules(c, "C05.R2.coverage", ev, serializerRules)
 	checkSerializerPairs(c, ev)
+	checkDecoders(c, ev, gen)
 	checkReceiverAssignmentOrder(c, ev)
 	checkDiscriminatorAgreement(c, "C05.R4.discriminator", gen)
 }
@@ -330,4 +331,85 @@ func checkReceiverAssignmentOrder(c *Ctx, ev *tmpl.Evaluator) {
 				"a part of the receiver (the additional-properties map) is written at "+bad+" before the whole receiver is overwritten: the additional properties just decoded are wiped")
 		}
 	}
+}
+
+var toaddDeclRx = regexp.MustCompile(`var toadd `)
+var toaddUseRx = regexp.MustCompile(`(json\.Unmarshal\(v, |dec\.Decode\()(⟦[^⟧]*⟧)?&?(⟦[^⟧]*⟧)?toadd\)`)
+var forRx = regexp.MustCompile(`\n\s*for [^\n]*\{`)
+
+// checkDecoders: decoders that may fill untyped values keep numbers exact (UseNumber on every
+// json.NewDecoder of the tuple and polymorphic serializers), the variable an additional value is
+// decoded into is declared inside the loop (encoding/json merges into an existing value: a
+// hoisted variable aliases slices and inherits fields across iterations), and a named tuple
+// keeps its members in item order.
+func checkDecoders(c *Ctx, ev *tmpl.Evaluator, gen *packages.Package) {
+	rule := "C05.R2.decoders"
+	c.Rule(rule, "element decoders keep numbers exact, decode each additional value into a fresh variable, and tuple members stay in item order", 6)
+	for _, tn := range []string{"tupleSerializer", "hasDiscriminatedSerializer"} {
+		l := linearOf(c, ev, tn)
+		if l == nil {
+			c.Anchor(rule, "template "+tn, "not found")
+			continue
+		}
+		nd := len(regexp.MustCompile(`json\.NewDecoder\(`).FindAllString(l.Text, -1))
+		nu := len(regexp.MustCompile(`\.UseNumber\(\)`).FindAllString(l.Text, -1))
+		c.Check(nd > 0 && nd == nu, rule, "template "+tn+" › every json.NewDecoder uses UseNumber", l.Tree.File, fmt.Sprintf("%d decoders", nd),
+			fmt.Sprintf("%d json.NewDecoder calls but %d UseNumber calls: untyped values decoded without UseNumber turn integers beyond 2^53 into float64 and lose digits", nd, nu))
+	}
+	for _, tn := range []string{"additionalPropertiesSerializer", "hasDiscriminatedSerializer", "tupleSerializer"} {
+		l := linearOf(c, ev, tn)
+		if l == nil {
+			continue
+		}
+		k := 0
+		for _, use := range toaddUseRx.FindAllStringIndex(l.Text, -1) {
+			k++
+			lastDecl, lastFor := -1, -1
+			for _, d := range toaddDeclRx.FindAllStringIndex(l.Text[:use[0]], -1) {
+				lastDecl = d[0]
+			}
+			for _, f := range forRx.FindAllStringIndex(l.Text[:use[0]], -1) {
+				lastFor = f[0]
+			}
+			ok := lastDecl > lastFor && lastFor >= 0
+			c.Check(ok, rule, fmt.Sprintf("template %s › additional value #%d decoded into a per-iteration variable", tn, k), l.Tree.PosStr(l.PosAt(use[0])), "var toadd declared inside the loop",
+				"the variable additional values are decoded into is declared outside the loop: encoding/json reuses its backing arrays and keeps fields of the previous entry, so entries alias or inherit each other's data")
+		}
+		if k == 0 {
+			c.Unk(rule, "template "+tn+" › additional value decoding", l.Tree.File, "no decode into `toadd` found (anchor)")
+		}
+	}
+	// named tuple members in item order
+	info := gen.TypesInfo
+	fd := load.FuncDecl(gen, "schemaGenContext.buildItems")
+	if fd == nil {
+		c.Anchor(rule, "generator.schemaGenContext.buildItems", "not found")
+		return
+	}
+	inOrder, sorted := false, ""
+	ast.Inspect(fd.Body, func(n ast.Node) bool {
+		switch x := n.(type) {
+		case *ast.RangeStmt:
+			if goan.LastSel(x.X) == "Schemas" {
+				for _, st := range x.Body.List {
+					if as, ok := st.(*ast.AssignStmt); ok && len(as.Lhs) == 1 && goan.LastSel(as.Lhs[0]) == "Properties" {
+						if call, ok := as.Rhs[0].(*ast.CallExpr); ok && goan.IsBuiltinCall(info, call, "append") {
+							inOrder = true
+						}
+					}
+				}
+			}
+		case *ast.CallExpr:
+			if fn := goan.Callee(info, x); fn != nil && fn.Pkg() != nil && (fn.Pkg().Path() == "sort" || fn.Pkg().Path() == "slices") {
+				for _, a := range x.Args {
+					if strings.Contains(goan.ExprString(a), "Properties") {
+						sorted = c.posOf(gen, x.Pos())
+					}
+				}
+			}
+		}
+		return true
+	})
+	c.Check(inOrder && sorted == "", rule, "generator.schemaGenContext.buildItems › tuple members appended in item order, never sorted", c.posOf(gen, fd.Pos()), "append in the range over Items.Schemas",
+		"tuple members are re-ordered ("+sorted+"): the serializer decodes array position i into the i-th member, so members p10, p11 sorted before p2 receive the wrong items")
 }
